@@ -81,6 +81,9 @@ def _dec(t, s):
                 if k == '$frame':  # generic DataFrame: [index values, columns, rows]
                     import pandas as pd
                     return pd.DataFrame(_dec(v[2], s), index=_dec(v[0], s), columns=_dec(v[1], s), dtype=v[3] if len(v) > 3 else None)
+                if k == '$tsz':      # Series on a timezone-aware index: [naive UTC stamps, values, tz]
+                    import pandas as pd
+                    return pd.Series(_dec(v[1], s), index=_idx(v[0]).tz_localize('UTC').tz_convert(v[2]), dtype=float)
                 if k == '$ts':
                     import pandas as pd
                     vals = _dec(v[1], s)
